@@ -1,2 +1,13 @@
 import NTV.Proofs.C20
 #print axioms NTV.C20.bookkeeping_full
+#print axioms NTV.C20.box_complete
+#print axioms NTV.C20.shortVectors_checker
+#print axioms NTV.C20.isPosDef_checker
+#print axioms NTV.C20.quadVal_checker
+#print axioms NTV.C20.floorSqrt_checker
+#print axioms NTV.C20.inverse_checker
+#print axioms NTV.C20.isReduced_checker
+#print axioms NTV.C20.gso_checker
+#print axioms NTV.C20.qdet_checker
+#print axioms NTV.C20.det_checker
+#print axioms NTV.C20.mul_checker
